@@ -1,13 +1,1047 @@
-//! C06 — stub (not built yet; not registered in MANIFEST.json).
-use super::*;
+//! C06 — sheet list and annotations survive save/reload on the same cells.
+//!
+//! Oracle: build the workbook of an `AnnotWb` spec through the public API, take the
+//! *projection* P(book) (public getters only, exactly the items the statement lists), save to
+//! memory, reload eagerly, take P(reloaded) and compare item by item.  Every annotation kind
+//! is compared as a set keyed by its anchor (cell / first range / scope+name), so a swap, a
+//! move, a loss, an addition and a duplicate each get their own finding key while a mere
+//! reordering of a list passes.  A second, independent look at the written bytes (own zip +
+//! XML walk, none of the library's code) checks hyperlinks, merged ranges and defined names
+//! in the file itself.
+//!
+//! Normalisations (each one is a statement about what carries no meaning):
+//! * order of the lists of merges / comments / validations / conditional formats / names;
+//! * for workbook-scope defined names (no `localSheetId`) the list they are stored in
+//!   (workbook list or a sheet's list): the reader re-homes them by the sheet named in the
+//!   address; for sheet-scope names the owning sheet *is* compared;
+//! * defined-name text is parsed by a small reference-address parser on both sides, so
+//!   `Sheet1!$A$1` and `'Sheet1'!$A$1` are the same list of areas; anything that is not a list
+//!   of areas is compared character for character;
+//! * a sheet state that was never set and `visible` are the same state.
+use super::Prop;
+use crate::engine::*;
+use crate::gen::annot::*;
+use crate::props::c01::{load, save};
+use proptest::prelude::*;
+use serde::{Deserialize, Serialize};
+use std::collections::{BTreeMap, BTreeSet};
+use std::sync::OnceLock;
+use umya_spreadsheet::{Spreadsheet, Worksheet};
 
 pub fn prop() -> Prop {
     Prop {
         id: "C06",
-        describe: |_| {},
-        subs: no_subs,
-        extra: no_extra,
-        replay_extra: no_replay_extra,
-        watchdog_s: (900, 7200),
+        describe,
+        subs,
+        extra: super::no_extra,
+        replay_extra: super::no_replay_extra,
+        watchdog_s: (900, 14400),
     }
+}
+
+fn describe(ctx: &Ctx) {
+    ctx.rule("generated workbooks (1..6 sheets with legal names incl. XML specials / non-ASCII, states unset/visible/hidden/veryHidden with >=1 visible, active tab on a visible sheet, optionally sheets removed again before saving; per sheet 0..24 each of merged ranges, defined names (workbook/sheet scope; cell, range, multi-area, constant/formula; sheet names needing quotes), hyperlinks (external/internal, tooltip), comments (unsorted, authors with duplicates/empty/non-ASCII, 1..3 runs, with and without note shape), data validations, conditional formats (every rule kind the API offers, dxf), auto-filter, tab colour, panes + selections, page setup/margins/print options/printer settings, header/footer, sheet and workbook protection flags) built through the public API, saved to memory (standard or light writer) and reloaded eagerly; the projection (public getters) before saving and after reloading is compared as sets keyed by anchor cell / range / scope+name, and the hyperlinks, merged ranges, defined names, sheet list and active tab are also decoded from the written bytes without the library. Sub-checks: roundtrip (everything, clean), hyperlinks (2..24 links per sheet plus what shares their relationship numbering; 4 saves per case), dirty (adds the input features of the open findings). Non-trivial = some sheet has >=2 annotations of one kind, or a sheet name / defined name / hyperlink target / author contains an XML special or non-ASCII character; distinct by full case");
+    ctx.assume("passwords of protections are not generated (property C15)");
+    ctx.assume("defined-name texts with a top-level double quote, or with a top-level comma between pieces that are not cell references (print titles), are not generated: DefinedName::set_address changes them when they are handed to the API, before any save");
+    ctx.assume("formula-like texts (validation formulas, conditional-format formulas, defined-name formulas) carry no leading/trailing blanks; header/footer texts with such blanks only in the dirty stratum");
+    ctx.assume("for workbook-scope defined names the list that stores them (workbook or sheet) is not compared; for sheet-scope names the owning sheet is compared and localSheetId must name the owner after reload");
+    ctx.assume("the expected value of every item is what the public getters show before saving; the spec is checked against that view first (mismatch = discard, none observed)");
+}
+
+#[derive(Debug, Clone, Serialize, Deserialize)]
+pub struct Case {
+    pub wb: AnnotWb,
+    pub light: bool,
+}
+
+// ---------------------------------------------------------------------------------------
+// projection
+
+/// one annotation: ordered (field, value) pairs
+type Item = Vec<(&'static str, String)>;
+/// one annotation kind on one sheet: (anchor, item) in storage order
+type Keyed = Vec<(String, Item)>;
+
+#[derive(Debug, Clone, Default)]
+pub struct SheetProj {
+    pub name: String,
+    pub state: String,
+    pub kinds: BTreeMap<&'static str, Keyed>,
+}
+
+#[derive(Debug, Clone, Default)]
+pub struct Proj {
+    pub sheets: Vec<SheetProj>,
+    pub active_tab: u32,
+    pub wb_protection: Keyed,
+    /// anchor = scope \u{1} name
+    pub names: Keyed,
+}
+
+fn b(v: &bool) -> String {
+    if *v { "1" } else { "0" }.to_string()
+}
+
+fn color_item(c: &umya_spreadsheet::Color) -> String {
+    format!("argb={} theme={} indexed={} tint={:?}", c.get_argb(), c.get_theme_index(), c.get_indexed(), c.get_tint())
+}
+
+/// Reference parser for defined-name texts: a comma separated list of `sheet!range` areas
+/// (sheet bare or in apostrophes with inner apostrophes doubled) is turned into a canonical
+/// form; anything else is kept verbatim.
+pub fn canon_name_text(t: &str) -> String {
+    fn split_top(t: &str) -> Vec<String> {
+        let mut out = Vec::new();
+        let mut cur = String::new();
+        let mut in_q = false;
+        for c in t.chars() {
+            match c {
+                '\'' => {
+                    in_q = !in_q;
+                    cur.push(c);
+                }
+                ',' if !in_q => out.push(std::mem::take(&mut cur)),
+                _ => cur.push(c),
+            }
+        }
+        out.push(cur);
+        out
+    }
+    fn is_cell(s: &str) -> bool {
+        let s = s.strip_prefix('$').unwrap_or(s);
+        let letters = s.chars().take_while(|c| c.is_ascii_uppercase()).count();
+        if !(1..=3).contains(&letters) {
+            return false;
+        }
+        let rest = &s[letters..];
+        let rest = rest.strip_prefix('$').unwrap_or(rest);
+        !rest.is_empty() && rest.chars().all(|c| c.is_ascii_digit())
+    }
+    fn area(p: &str) -> Option<(String, String)> {
+        let (sheet, range) = if let Some(rest) = p.strip_prefix('\'') {
+            // quoted: up to the apostrophe that is not doubled
+            let cs: Vec<char> = rest.chars().collect();
+            let mut name = String::new();
+            let mut i = 0;
+            loop {
+                if i >= cs.len() {
+                    return None;
+                }
+                if cs[i] == '\'' {
+                    if i + 1 < cs.len() && cs[i + 1] == '\'' {
+                        name.push('\'');
+                        i += 2;
+                        continue;
+                    }
+                    break;
+                }
+                name.push(cs[i]);
+                i += 1;
+            }
+            let tail: String = cs[i + 1..].iter().collect();
+            let range = tail.strip_prefix('!')?.to_string();
+            (name, range)
+        } else {
+            let (s, r) = p.split_once('!')?;
+            if s.is_empty() || s.contains('\'') {
+                return None;
+            }
+            (s.to_string(), r.to_string())
+        };
+        let mut parts = range.split(':');
+        let a = parts.next()?;
+        let bq = parts.next();
+        if parts.next().is_some() || !is_cell(a) || !bq.map_or(true, is_cell) {
+            return None;
+        }
+        Some((sheet, range))
+    }
+    let pieces = split_top(t);
+    let mut out = Vec::new();
+    for p in &pieces {
+        match area(p) {
+            Some((s, r)) => out.push(format!("{}\u{1}{}", s, r)),
+            None => return format!("text:{}", t),
+        }
+    }
+    format!("areas:{}", out.join("\u{2}"))
+}
+
+fn show_canon(s: &str) -> String {
+    s.replace('\u{1}', " ! ").replace('\u{2}', " , ")
+}
+
+fn project_sheet(ws: &Worksheet) -> SheetProj {
+    let mut p = SheetProj {
+        name: ws.get_name().to_string(),
+        state: state_name(ws.get_state()).to_string(),
+        kinds: BTreeMap::new(),
+    };
+    // merged ranges: anchor = top-left cell
+    let mut merges = Keyed::new();
+    for r in ws.get_merge_cells() {
+        let t = r.get_range();
+        let anchor = t.split(':').next().unwrap_or("").to_string();
+        merges.push((anchor, vec![("range", t)]));
+    }
+    p.kinds.insert("merge", merges);
+    // hyperlinks: anchor = cell
+    let mut links = Keyed::new();
+    let mut cells: Vec<&umya_spreadsheet::Cell> = ws.get_cell_collection();
+    cells.sort_by_key(|c| (*c.get_coordinate().get_row_num(), *c.get_coordinate().get_col_num()));
+    for c in cells {
+        if let Some(h) = c.get_hyperlink() {
+            let anchor = format!("{}{}", col_name(*c.get_coordinate().get_col_num()), c.get_coordinate().get_row_num());
+            links.push((
+                anchor,
+                vec![("kind", if *h.get_location() { "internal" } else { "external" }.to_string()), ("target", h.get_url().to_string()), ("tooltip", h.get_tooltip().to_string())],
+            ));
+        }
+    }
+    p.kinds.insert("hyperlink", links);
+    // comments: anchor = cell
+    let mut comments = Keyed::new();
+    for c in ws.get_comments() {
+        let co = c.get_coordinate();
+        let anchor = format!("{}{}", col_name(*co.get_col_num()), co.get_row_num());
+        let runs: Vec<String> = c.get_text().get_rich_text_elements().iter().map(|e| e.get_text().to_string()).collect();
+        let cd = c.get_shape().get_client_data();
+        let shape = match (cd.get_comment_column_target(), cd.get_comment_row_target()) {
+            (Some(cc), Some(rr)) => format!("{}{}", col_name(*cc.get_value() + 1), *rr.get_value() + 1),
+            (None, None) => "none".to_string(),
+            (a, bb) => format!("partial:{:?}/{:?}", a.map(|v| *v.get_value()), bb.map(|v| *v.get_value())),
+        };
+        comments.push((anchor, vec![("author", c.get_author().to_string()), ("text", format!("{:?}", runs)), ("shape-cell", shape)]));
+    }
+    p.kinds.insert("comment", comments);
+    // data validations: anchor = sqref
+    let mut dvs = Keyed::new();
+    if let Some(list) = ws.get_data_validations() {
+        for d in list.get_data_validation_list() {
+            dvs.push((
+                d.get_sequence_of_references().get_sqref(),
+                vec![
+                    ("type", dv_type_name(d.get_type()).to_string()),
+                    ("operator", dv_op_name(d.get_operator()).to_string()),
+                    ("allow-blank", b(d.get_allow_blank())),
+                    ("show-input", b(d.get_show_input_message())),
+                    ("show-error", b(d.get_show_error_message())),
+                    ("prompt-title", d.get_prompt_title().to_string()),
+                    ("prompt", d.get_prompt().to_string()),
+                    ("error-title", d.get_error_title().to_string()),
+                    ("error", d.get_error_message().to_string()),
+                    ("formula1", d.get_formula1().to_string()),
+                    ("formula2", d.get_formula2().to_string()),
+                ],
+            ));
+        }
+    }
+    p.kinds.insert("data-validation", dvs);
+    // conditional formats: anchor = sqref + priority of the rule (one entry per rule), plus one
+    // entry per range list so that a format without rules is still seen
+    let mut cfs = Keyed::new();
+    for cf in ws.get_conditional_formatting_collection() {
+        let sq = cf.get_sequence_of_references().get_sqref();
+        cfs.push((format!("{} (range list)", sq), vec![("rules", cf.get_conditional_collection().len().to_string())]));
+        for r in cf.get_conditional_collection() {
+            let dxf = match r.get_style() {
+                None => "none".to_string(),
+                Some(st) => format!(
+                    "font={} bg={}",
+                    st.get_font().map_or("none".to_string(), |f| format!("bold={} italic={} color={}", b(f.get_bold()), b(f.get_italic()), f.get_color().get_argb())),
+                    st.get_background_color().map_or("none".to_string(), |c| c.get_argb().to_string())
+                ),
+            };
+            let vis = |cfvo: &[umya_spreadsheet::ConditionalFormatValueObject], cols: &[umya_spreadsheet::Color]| {
+                format!(
+                    "cfvo={:?} colors={:?}",
+                    cfvo.iter().map(|o| format!("{}:{}", cfvo_type_name(o.get_type()), o.get_val())).collect::<Vec<_>>(),
+                    cols.iter().map(color_item).collect::<Vec<_>>()
+                )
+            };
+            cfs.push((
+                format!("{} #{}", sq, r.get_priority()),
+                vec![
+                    ("type", cf_type_name(r.get_type()).to_string()),
+                    ("operator", cf_op_name(r.get_operator()).to_string()),
+                    ("formula", r.get_formula().map_or("none".to_string(), |f| f.get_address_str())),
+                    ("dxf", dxf),
+                    ("text", r.get_text().to_string()),
+                    ("percent", b(r.get_percent())),
+                    ("bottom", b(r.get_bottom())),
+                    ("rank", r.get_rank().to_string()),
+                    ("stop-if-true", b(r.get_stop_if_true())),
+                    ("std-dev", r.get_std_dev().to_string()),
+                    ("above-average", b(r.get_above_average())),
+                    ("equal-average", b(r.get_equal_average())),
+                    ("time-period", time_period_name(r.get_time_period()).to_string()),
+                    ("color-scale", r.get_color_scale().map_or("none".to_string(), |o| vis(o.get_cfvo_collection(), o.get_color_collection()))),
+                    ("icon-set", r.get_icon_set().map_or("none".to_string(), |o| vis(o.get_cfvo_collection(), o.get_color_collection()))),
+                    ("data-bar", r.get_data_bar().map_or("none".to_string(), |o| vis(o.get_cfvo_collection(), o.get_color_collection()))),
+                ],
+            ));
+        }
+    }
+    p.kinds.insert("cond-format", cfs);
+    let single = |item: Option<Item>| -> Keyed { item.map(|i| vec![("-".to_string(), i)]).unwrap_or_default() };
+    p.kinds.insert("auto-filter", single(ws.get_auto_filter().map(|a| vec![("range", a.get_range().get_range())])));
+    p.kinds.insert("tab-color", single(ws.get_tab_color().map(|c| vec![("color", color_item(c))])));
+    // sheet views: panes and selections; anchor = index of the view
+    let mut panes = Keyed::new();
+    let mut sels = Keyed::new();
+    let mut tabsel = Keyed::new();
+    for (vi, v) in ws.get_sheets_views().get_sheet_view_list().iter().enumerate() {
+        if *v.get_tab_selected() {
+            tabsel.push((format!("view{}", vi), vec![("tab-selected", "1".to_string())]));
+        }
+        if let Some(pa) = v.get_pane() {
+            panes.push((
+                format!("view{}", vi),
+                vec![
+                    ("x-split", format!("{:?}", pa.get_horizontal_split())),
+                    ("y-split", format!("{:?}", pa.get_vertical_split())),
+                    ("top-left", pa.get_top_left_cell().get_coordinate()),
+                    ("active-pane", pane_name(pa.get_active_pane()).to_string()),
+                    ("state", pane_state_name(pa.get_state()).to_string()),
+                ],
+            ));
+        }
+        for (si, s) in v.get_selection().iter().enumerate() {
+            sels.push((
+                format!("view{} selection{}", vi, si),
+                vec![
+                    ("pane", pane_name(s.get_pane()).to_string()),
+                    ("active-cell", s.get_active_cell().map_or("none".to_string(), |c| c.get_coordinate())),
+                    ("sqref", s.get_sequence_of_references().get_sqref()),
+                ],
+            ));
+        }
+    }
+    p.kinds.insert("pane", panes);
+    p.kinds.insert("selection", sels);
+    p.kinds.insert("tab-selected", tabsel);
+    p.kinds.insert("worksheet-active-cell", single(if ws.get_active_cell().is_empty() { None } else { Some(vec![("cell", ws.get_active_cell().to_string())]) }));
+    let ps = ws.get_page_setup();
+    let pm = ws.get_page_margins();
+    let po = ws.get_print_options();
+    p.kinds.insert(
+        "page-setup",
+        single(Some(vec![
+            ("paper-size", ps.get_paper_size().to_string()),
+            ("orientation", orientation_name(ps.get_orientation()).to_string()),
+            ("scale", ps.get_scale().to_string()),
+            ("fit-to-height", ps.get_fit_to_height().to_string()),
+            ("fit-to-width", ps.get_fit_to_width().to_string()),
+            ("horizontal-dpi", ps.get_horizontal_dpi().to_string()),
+            ("vertical-dpi", ps.get_vertical_dpi().to_string()),
+            ("printer-settings", format!("{:?}", ps.get_object_data())),
+            (
+                "margins",
+                format!("{:?} {:?} {:?} {:?} {:?} {:?}", pm.get_left(), pm.get_right(), pm.get_top(), pm.get_bottom(), pm.get_header(), pm.get_footer()),
+            ),
+            ("horizontal-centered", b(po.get_horizontal_centered())),
+            ("vertical-centered", b(po.get_vertical_centered())),
+        ])),
+    );
+    let hf = ws.get_header_footer();
+    p.kinds.insert("header-footer", single(Some(vec![("header", hf.get_odd_header().get_value().to_string()), ("footer", hf.get_odd_footer().get_value().to_string())])));
+    p.kinds.insert(
+        "sheet-protection",
+        single(ws.get_sheet_protection().map(|sp| {
+            vec![
+                ("sheet", b(sp.get_sheet())),
+                ("objects", b(sp.get_objects())),
+                ("deleteRows", b(sp.get_delete_rows())),
+                ("insertColumns", b(sp.get_insert_columns())),
+                ("deleteColumns", b(sp.get_delete_columns())),
+                ("insertHyperlinks", b(sp.get_insert_hyperlinks())),
+                ("autoFilter", b(sp.get_auto_filter())),
+                ("scenarios", b(sp.get_scenarios())),
+                ("formatCells", b(sp.get_format_cells())),
+                ("formatColumns", b(sp.get_format_columns())),
+                ("insertRows", b(sp.get_insert_rows())),
+                ("formatRows", b(sp.get_format_rows())),
+                ("pivotTables", b(sp.get_pivot_tables())),
+                ("selectLockedCells", b(sp.get_select_locked_cells())),
+                ("selectUnlockedCells", b(sp.get_select_unlocked_cells())),
+                ("sort", b(sp.get_sort())),
+            ]
+        })),
+    );
+    p
+}
+
+pub fn project(book: &Spreadsheet) -> Proj {
+    let mut p = Proj::default();
+    let n = book.get_sheet_count();
+    for i in 0..n {
+        p.sheets.push(project_sheet(book.get_sheet(&i).unwrap()));
+    }
+    p.active_tab = *book.get_workbook_view().get_active_tab();
+    if let Some(wp) = book.get_workbook_protection() {
+        p.wb_protection.push((
+            "-".to_string(),
+            vec![("lockStructure", b(wp.get_lock_structure())), ("lockWindows", b(wp.get_lock_windows())), ("lockRevision", b(wp.get_lock_revision()))],
+        ));
+    }
+    let add = |home: Option<usize>, d: &umya_spreadsheet::DefinedName, p: &mut Proj| {
+        let (scope, home_ok) = if d.has_local_sheet_id() {
+            let raw = *d.get_local_sheet_id() as usize;
+            match home {
+                // kept in a sheet's list: that sheet owns it
+                Some(h) => (format!("sheet:{}", p.sheets[h].name), raw == h),
+                None => (p.sheets.get(raw).map_or(format!("sheet-index:{}", raw), |s| format!("sheet:{}", s.name)), true),
+            }
+        } else {
+            ("workbook".to_string(), true)
+        };
+        p.names.push((
+            format!("{}\u{1}{}", scope, d.get_name()),
+            vec![("hidden", b(d.get_hidden())), ("text", canon_name_text(&d.get_address())), ("post:local-id-is-owner", b(&home_ok))],
+        ));
+    };
+    for d in book.get_defined_names() {
+        add(None, d, &mut p);
+    }
+    for i in 0..n {
+        for d in book.get_sheet(&i).unwrap().get_defined_names() {
+            add(Some(i), d, &mut p);
+        }
+    }
+    p
+}
+
+// ---------------------------------------------------------------------------------------
+// comparison
+
+pub type Fails = Vec<(String, String)>;
+
+fn special_name(kind: &str, field: &str, exp: &str, got: &str, from_sibling: bool) -> String {
+    match (kind, field) {
+        ("hyperlink", "tooltip") if got.is_empty() => "hyperlink/tooltip-lost".to_string(),
+        ("comment", "author") if exp.is_empty() => "comment/empty-author-replaced".to_string(),
+        ("comment", "author") if from_sibling => "comment/author-shifted".to_string(),
+        ("cond-format", "text") if got.is_empty() => "cond-format/text-lost".to_string(),
+        ("cond-format", "icon-set") | ("cond-format", "data-bar") if exp != "none" && got == "none" => format!("cond-format/{}-lost", field),
+        ("header-footer", _) if exp.trim() == got && exp != got => "header-footer/edge-blank-trimmed".to_string(),
+        _ if from_sibling => format!("{}/{}-swapped", kind, field),
+        _ => format!("{}/{}-changed", kind, field),
+    }
+}
+
+fn same_item(a: &Item, b: &Item) -> bool {
+    a.len() == b.len() && a.iter().zip(b.iter()).all(|(x, y)| x.0 == y.0 && (x.0.starts_with("post:") || x.1 == y.1))
+}
+
+/// Keyed-set comparison of one annotation kind.
+pub fn diff_keyed(kind: &str, at: &str, exp: &Keyed, got: &Keyed, fails: &mut Fails) {
+    let show = |a: &str| show_canon(a);
+    let mut em: BTreeMap<&str, Vec<&Item>> = BTreeMap::new();
+    for (a, i) in exp {
+        em.entry(a.as_str()).or_default().push(i);
+    }
+    let mut gm: BTreeMap<&str, Vec<&Item>> = BTreeMap::new();
+    for (a, i) in got {
+        gm.entry(a.as_str()).or_default().push(i);
+    }
+    let lost: Vec<&str> = em.keys().filter(|a| !gm.contains_key(*a)).cloned().collect();
+    let extra: Vec<&str> = gm.keys().filter(|a| !em.contains_key(*a)).cloned().collect();
+    let mut extra_used: BTreeSet<&str> = BTreeSet::new();
+    for a in &lost {
+        let item = em[a][0];
+        if let Some(x) = extra.iter().find(|x| !extra_used.contains(*x) && same_item(gm[*x][0], item)) {
+            extra_used.insert(x);
+            fails.push((format!("{}/moved", kind), format!("{}: {} at {} is at {} after reload: {:?}", at, kind, show(a), show(x), item)));
+        } else {
+            fails.push((format!("{}/lost", kind), format!("{}: {} at {} is missing after reload: {:?}", at, kind, show(a), item)));
+        }
+    }
+    for x in &extra {
+        if !extra_used.contains(x) {
+            fails.push((format!("{}/extra", kind), format!("{}: {} at {} appeared after reload: {:?}", at, kind, show(x), gm[x][0])));
+        }
+    }
+    for (a, gis) in &gm {
+        let Some(eis) = em.get(a) else { continue };
+        if gis.len() > eis.len() {
+            fails.push((format!("{}/duplicated", kind), format!("{}: {} at {} occurs {} times after reload, {} before", at, kind, show(a), gis.len(), eis.len())));
+            continue;
+        }
+        if gis.len() < eis.len() {
+            fails.push((format!("{}/lost", kind), format!("{}: {} at {} occurs {} times after reload, {} before", at, kind, show(a), gis.len(), eis.len())));
+            continue;
+        }
+        for (e, g) in eis.iter().zip(gis.iter()) {
+            for ((f, ev), (_, gv)) in e.iter().zip(g.iter()) {
+                // "post:" fields are conditions on the reloaded workbook alone, not compared
+                if let Some(cond) = f.strip_prefix("post:") {
+                    if gv != "1" {
+                        fails.push((format!("{}/{}-violated", kind, cond), format!("{}: {} at {}: {} does not hold after reload", at, kind, show(a), cond)));
+                    }
+                    continue;
+                }
+                if ev != gv {
+                    // does the value come from a sibling?
+                    let from_sibling = exp.iter().any(|(oa, oi)| oa != a && oi.iter().any(|(of, ov)| of == f && ov == gv));
+                    fails.push((
+                        special_name(kind, f, ev, gv, from_sibling),
+                        format!("{}: {} at {}: {} {:?} reloaded as {:?}", at, kind, show(a), f, show_canon(ev), show_canon(gv)),
+                    ));
+                }
+            }
+        }
+    }
+}
+
+pub fn diff(exp: &Proj, got: &Proj) -> Fails {
+    let mut fails = Fails::new();
+    let en: Vec<&str> = exp.sheets.iter().map(|s| s.name.as_str()).collect();
+    let gn: Vec<&str> = got.sheets.iter().map(|s| s.name.as_str()).collect();
+    if en != gn {
+        let key = if en.len() != gn.len() {
+            "sheets/count"
+        } else {
+            let mut a = en.clone();
+            let mut bq = gn.clone();
+            a.sort();
+            bq.sort();
+            if a == bq {
+                "sheets/order"
+            } else {
+                "sheets/name-changed"
+            }
+        };
+        fails.push((key.to_string(), format!("sheet list {:?} reloaded as {:?}", en, gn)));
+        return fails;
+    }
+    if exp.active_tab != got.active_tab {
+        fails.push(("active-tab/changed".to_string(), format!("active tab {} reloaded as {}", exp.active_tab, got.active_tab)));
+    }
+    diff_keyed("workbook-protection", "workbook", &exp.wb_protection, &got.wb_protection, &mut fails);
+    diff_keyed("defined-name", "workbook", &exp.names, &got.names, &mut fails);
+    for (i, (e, g)) in exp.sheets.iter().zip(got.sheets.iter()).enumerate() {
+        let at = format!("sheet {} {:?}", i, e.name);
+        if e.state != g.state {
+            fails.push((format!("sheet-state/{}-becomes-{}", e.state, g.state), format!("{}: state {} reloaded as {}", at, e.state, g.state)));
+        }
+        for (kind, ek) in &e.kinds {
+            let empty = Keyed::new();
+            let gk = g.kinds.get(kind).unwrap_or(&empty);
+            diff_keyed(kind, &at, ek, gk, &mut fails);
+        }
+    }
+    fails
+}
+
+// ---------------------------------------------------------------------------------------
+// the spec must be what the API shows before saving (otherwise the case says nothing)
+
+fn spec_agrees(spec: &AnnotWb, p: &Proj) -> Result<(), String> {
+    let kept = spec.kept();
+    if kept.len() != p.sheets.len() {
+        return Err(format!("{} sheets built, {} expected", p.sheets.len(), kept.len()));
+    }
+    if p.active_tab != spec.active_tab {
+        return Err(format!("active tab {} vs {}", p.active_tab, spec.active_tab));
+    }
+    let mut names_expected: BTreeMap<String, String> = BTreeMap::new();
+    for n in &spec.wb_names {
+        names_expected.insert(format!("workbook\u{1}{}", n.name), canon_name_text(&spec.render_name_text(&n.text)));
+    }
+    for (k, i) in kept.iter().enumerate() {
+        let s = &spec.sheets[*i];
+        let sp = &p.sheets[k];
+        if sp.name != s.name {
+            return Err(format!("sheet {} is {:?}, spec {:?}", k, sp.name, s.name));
+        }
+        let st = ["visible", "visible", "hidden", "veryHidden"][s.state as usize % 4];
+        if sp.state != st {
+            return Err(format!("sheet {} state {} vs {}", k, sp.state, st));
+        }
+        let count = |kind: &str| sp.kinds.get(kind).map_or(0, |v| v.len());
+        let checks = [
+            ("merge", s.merges.len()),
+            ("hyperlink", s.links.len()),
+            ("comment", s.comments.len()),
+            ("data-validation", s.validations.len()),
+            ("cond-format", s.cond_formats.iter().map(|c| 1 + c.rules.len()).sum()),
+            ("auto-filter", s.auto_filter.is_some() as usize),
+            ("tab-color", s.tab_color.is_some() as usize),
+            ("pane", s.view.as_ref().map_or(0, |v| v.pane.is_some() as usize)),
+            ("selection", s.view.as_ref().map_or(0, |v| v.selections.len())),
+            ("sheet-protection", s.protection.is_some() as usize),
+            ("worksheet-active-cell", s.ws_active_cell.is_some() as usize),
+        ];
+        for (kind, n) in checks {
+            if count(kind) != n {
+                return Err(format!("sheet {}: {} {} built, {} in the spec", k, count(kind), kind, n));
+            }
+        }
+        let find = |kind: &str, anchor: &str| -> Option<&Item> { sp.kinds.get(kind).and_then(|v| v.iter().find(|(a, _)| a == anchor).map(|(_, i)| i)) };
+        for m in &s.merges {
+            let a = format!("{}{}", col_name(m.c1), m.r1);
+            match find("merge", &a) {
+                Some(i) if i[0].1 == m.a1_range() => {}
+                o => return Err(format!("sheet {}: merge {} shows as {:?}", k, m.a1_range(), o)),
+            }
+        }
+        for l in &s.links {
+            let a = format!("{}{}", col_name(l.col), l.row);
+            match find("hyperlink", &a) {
+                Some(i) if i[1].1 == l.target && (i[0].1 == "internal") == l.internal && i[2].1 == l.tooltip.clone().unwrap_or_default() => {}
+                o => return Err(format!("sheet {}: hyperlink {:?} shows as {:?}", k, l, o)),
+            }
+        }
+        for c in &s.comments {
+            let a = format!("{}{}", col_name(c.col), c.row);
+            match find("comment", &a) {
+                Some(i) if i[0].1 == c.author && i[1].1 == format!("{:?}", c.runs) && (i[2].1 == a) == c.with_shape => {}
+                o => return Err(format!("sheet {}: comment {:?} shows as {:?}", k, c, o)),
+            }
+        }
+        for v in &s.validations {
+            let a = v.sqref.iter().map(|r| r.a1()).collect::<Vec<_>>().join(" ");
+            match find("data-validation", &a) {
+                Some(i) if i[9].1 == v.formula1.clone().unwrap_or_default() && i[6].1 == v.prompt.clone().unwrap_or_default() => {}
+                o => return Err(format!("sheet {}: validation {} shows as {:?}", k, a, o)),
+            }
+        }
+        for c in &s.cond_formats {
+            let a = c.sqref.iter().map(|r| r.a1()).collect::<Vec<_>>().join(" ");
+            for r in &c.rules {
+                match find("cond-format", &format!("{} #{}", a, r.priority)) {
+                    Some(i) if i[0].1 == CF_TYPES[r.kind as usize] && i[2].1 == r.formula.clone().unwrap_or("none".to_string()) && i[4].1 == r.text.clone().unwrap_or_default() => {}
+                    o => return Err(format!("sheet {}: rule {} #{} shows as {:?}", k, a, r.priority, o)),
+                }
+            }
+        }
+        if let Some(r) = &s.auto_filter {
+            if find("auto-filter", "-").map(|i| i[0].1.clone()) != Some(r.a1_range()) {
+                return Err(format!("sheet {}: auto filter {} shows as {:?}", k, r.a1_range(), find("auto-filter", "-")));
+            }
+        }
+        let hf = find("header-footer", "-").unwrap();
+        if hf[0].1 != s.header.clone().unwrap_or_default() || hf[1].1 != s.footer.clone().unwrap_or_default() {
+            return Err(format!("sheet {}: header/footer {:?}", k, hf));
+        }
+        for n in &s.names {
+            let scope = if n.local { format!("sheet:{}", s.name) } else { "workbook".to_string() };
+            names_expected.insert(format!("{}\u{1}{}", scope, n.name), canon_name_text(&spec.render_name_text(&n.text)));
+        }
+    }
+    if names_expected.len() != p.names.len() {
+        return Err(format!("{} defined names built, {} in the spec", p.names.len(), names_expected.len()));
+    }
+    for (a, i) in &p.names {
+        match names_expected.get(a) {
+            Some(t) if *t == i[1].1 => {}
+            o => return Err(format!("defined name {} shows as {:?}, spec {:?}", show_canon(a), show_canon(&i[1].1), o.map(|s| show_canon(s)))),
+        }
+    }
+    Ok(())
+}
+
+// ---------------------------------------------------------------------------------------
+// independent look at the written file (own zip + XML walk)
+
+mod filecheck {
+    use quick_xml::events::Event;
+    use quick_xml::Reader;
+    use std::collections::BTreeMap;
+    use std::io::Read;
+
+    fn part(zip: &mut zip::ZipArchive<std::io::Cursor<&[u8]>>, name: &str) -> Option<String> {
+        let mut f = zip.by_name(name).ok()?;
+        let mut s = String::new();
+        f.read_to_string(&mut s).ok()?;
+        Some(s)
+    }
+
+    fn attrs(e: &quick_xml::events::BytesStart) -> BTreeMap<String, String> {
+        let mut m = BTreeMap::new();
+        for a in e.attributes().with_checks(false).flatten() {
+            let k = String::from_utf8_lossy(a.key.as_ref()).to_string();
+            let v = a.unescape_value().map(|v| v.to_string()).unwrap_or_default();
+            m.insert(k, v);
+        }
+        m
+    }
+
+    /// elements (name, attributes, text content) of a part in document order
+    fn elements(xml: &str) -> Result<Vec<(String, BTreeMap<String, String>, String)>, String> {
+        let mut r = Reader::from_str(xml);
+        let mut out: Vec<(String, BTreeMap<String, String>, String)> = Vec::new();
+        let mut stack: Vec<usize> = Vec::new();
+        loop {
+            match r.read_event() {
+                Ok(Event::Start(e)) => {
+                    out.push((String::from_utf8_lossy(e.name().as_ref()).to_string(), attrs(&e), String::new()));
+                    stack.push(out.len() - 1);
+                }
+                Ok(Event::Empty(e)) => out.push((String::from_utf8_lossy(e.name().as_ref()).to_string(), attrs(&e), String::new())),
+                Ok(Event::Text(t)) => {
+                    if let Some(i) = stack.last() {
+                        out[*i].2.push_str(&t.unescape().map_err(|e| format!("{:?}", e))?);
+                    }
+                }
+                Ok(Event::End(_)) => {
+                    stack.pop();
+                }
+                Ok(Event::Eof) => break,
+                Err(e) => return Err(format!("{:?}", e)),
+                _ => {}
+            }
+        }
+        Ok(out)
+    }
+
+    pub struct FileSheet {
+        pub name: String,
+        pub state: String,
+        /// ref -> (kind, target, tooltip)
+        pub links: Vec<(String, String, String, String)>,
+        pub merges: Vec<String>,
+    }
+    pub struct FileView {
+        pub sheets: Vec<FileSheet>,
+        pub active_tab: u32,
+        /// (localSheetId, name, text)
+        pub names: Vec<(Option<u32>, String, String)>,
+    }
+
+    pub fn decode(bytes: &[u8]) -> Result<FileView, String> {
+        let mut zip = zip::ZipArchive::new(std::io::Cursor::new(bytes)).map_err(|e| format!("zip: {:?}", e))?;
+        let wb = part(&mut zip, "xl/workbook.xml").ok_or("no xl/workbook.xml")?;
+        let rels = part(&mut zip, "xl/_rels/workbook.xml.rels").ok_or("no workbook rels")?;
+        let mut rel_target: BTreeMap<String, String> = BTreeMap::new();
+        for (n, a, _) in elements(&rels)? {
+            if n == "Relationship" {
+                rel_target.insert(a.get("Id").cloned().unwrap_or_default(), a.get("Target").cloned().unwrap_or_default());
+            }
+        }
+        let mut view = FileView {
+            sheets: Vec::new(),
+            active_tab: 0,
+            names: Vec::new(),
+        };
+        for (n, a, text) in elements(&wb)? {
+            match n.as_str() {
+                "workbookView" => view.active_tab = a.get("activeTab").and_then(|v| v.parse().ok()).unwrap_or(0),
+                "sheet" => {
+                    let rid = a.get("r:id").cloned().unwrap_or_default();
+                    let target = rel_target.get(&rid).ok_or(format!("sheet r:id {} not in workbook rels", rid))?;
+                    let path = if let Some(t) = target.strip_prefix('/') { t.to_string() } else { format!("xl/{}", target) };
+                    let xml = part(&mut zip, &path).ok_or(format!("no part {}", path))?;
+                    let (dir, file) = path.rsplit_once('/').unwrap_or(("", &path));
+                    let srels = part(&mut zip, &format!("{}/_rels/{}.rels", dir, file));
+                    let mut ext: BTreeMap<String, (String, String)> = BTreeMap::new();
+                    if let Some(sr) = srels {
+                        for (n, a, _) in elements(&sr)? {
+                            if n == "Relationship" {
+                                if ext
+                                    .insert(a.get("Id").cloned().unwrap_or_default(), (a.get("Target").cloned().unwrap_or_default(), a.get("Type").cloned().unwrap_or_default()))
+                                    .is_some()
+                                {
+                                    return Err(format!("duplicate relationship Id in rels of {}", path));
+                                }
+                            }
+                        }
+                    }
+                    let mut fs = FileSheet {
+                        name: a.get("name").cloned().unwrap_or_default(),
+                        state: a.get("state").cloned().unwrap_or("visible".to_string()),
+                        links: Vec::new(),
+                        merges: Vec::new(),
+                    };
+                    for (n, a, _) in elements(&xml)? {
+                        match n.as_str() {
+                            "mergeCell" => fs.merges.push(a.get("ref").cloned().unwrap_or_default()),
+                            "hyperlink" => {
+                                let r = a.get("ref").cloned().unwrap_or_default();
+                                let tip = a.get("tooltip").cloned().unwrap_or_default();
+                                if let Some(id) = a.get("r:id") {
+                                    let (t, ty) = ext.get(id).ok_or(format!("hyperlink {} r:id {} not in the sheet rels", r, id))?;
+                                    if !ty.ends_with("/hyperlink") {
+                                        return Err(format!("hyperlink {} r:id {} has relationship type {}", r, id, ty));
+                                    }
+                                    fs.links.push((r, "external".to_string(), t.clone(), tip));
+                                } else {
+                                    fs.links.push((r, "internal".to_string(), a.get("location").cloned().unwrap_or_default(), tip));
+                                }
+                            }
+                            _ => {}
+                        }
+                    }
+                    view.sheets.push(fs);
+                }
+                "definedName" => view.names.push((a.get("localSheetId").and_then(|v| v.parse().ok()), a.get("name").cloned().unwrap_or_default(), text)),
+                _ => {}
+            }
+        }
+        Ok(view)
+    }
+}
+
+/// The written file, decoded without the library, against the projection before saving.
+fn file_agrees(exp: &Proj, bytes: &[u8], fails: &mut Fails) {
+    let v = match filecheck::decode(bytes) {
+        Ok(v) => v,
+        Err(e) => {
+            fails.push(("file/undecodable".to_string(), e));
+            return;
+        }
+    };
+    let en: Vec<&str> = exp.sheets.iter().map(|s| s.name.as_str()).collect();
+    let gn: Vec<&str> = v.sheets.iter().map(|s| s.name.as_str()).collect();
+    if en != gn {
+        fails.push(("file/sheet-list".to_string(), format!("sheet list {:?} written as {:?}", en, gn)));
+        return;
+    }
+    if v.active_tab != exp.active_tab {
+        fails.push(("file/active-tab".to_string(), format!("active tab {} written as {}", exp.active_tab, v.active_tab)));
+    }
+    for (i, (e, g)) in exp.sheets.iter().zip(v.sheets.iter()).enumerate() {
+        let at = format!("file, sheet {} {:?}", i, e.name);
+        if e.state != g.state {
+            fails.push((format!("file/sheet-state-{}-written-{}", e.state, g.state), format!("{}: state {} written as {}", at, e.state, g.state)));
+        }
+        let gl: Keyed = g.links.iter().map(|(r, k, t, tip)| (r.clone(), vec![("kind", k.clone()), ("target", t.clone()), ("tooltip", tip.clone())])).collect();
+        let mut f2 = Fails::new();
+        diff_keyed("hyperlink", &at, &e.kinds["hyperlink"], &gl, &mut f2);
+        let gm: Keyed = g.merges.iter().map(|r| (r.split(':').next().unwrap_or("").to_string(), vec![("range", r.clone())])).collect();
+        diff_keyed("merge", &at, &e.kinds["merge"], &gm, &mut f2);
+        for (k, d) in f2 {
+            fails.push((format!("file:{}", k), d));
+        }
+    }
+    // defined names: scope by localSheetId
+    let gnames: Keyed = v
+        .names
+        .iter()
+        .map(|(l, n, t)| {
+            let scope = match l {
+                Some(i) => v.sheets.get(*i as usize).map_or(format!("sheet-index:{}", i), |s| format!("sheet:{}", s.name)),
+                None => "workbook".to_string(),
+            };
+            (format!("{}\u{1}{}", scope, n), vec![("text", canon_name_text(t))])
+        })
+        .collect();
+    let enames: Keyed = exp.names.iter().map(|(a, i)| (a.clone(), vec![("text", i[1].1.clone())])).collect();
+    let mut f2 = Fails::new();
+    diff_keyed("defined-name", "file", &enames, &gnames, &mut f2);
+    for (k, d) in f2 {
+        fails.push((format!("file:{}", k), d));
+    }
+}
+
+// ---------------------------------------------------------------------------------------
+// check
+
+fn open_known() -> &'static BTreeSet<String> {
+    static K: OnceLock<BTreeSet<String>> = OnceLock::new();
+    K.get_or_init(|| load_known().into_iter().filter(|k| k.property == "C06" && k.status == "open").map(|k| k.key).collect())
+}
+
+/// Of all discrepancies of a case report one that is not an open known finding, if there is
+/// one (a known discrepancy must never hide an unknown one in the same case).
+fn verdict_of(fails: Fails) -> Verdict {
+    if fails.is_empty() {
+        return Verdict::Pass;
+    }
+    let known = open_known();
+    let n = fails.len();
+    let (k, d) = fails.iter().find(|(k, _)| !known.contains(k)).unwrap_or(&fails[0]).clone();
+    Verdict::fail(k, if n > 1 { format!("{} (+{} more discrepancies: {:?})", d, n - 1, fails.iter().map(|f| f.0.as_str()).collect::<BTreeSet<_>>()) } else { d })
+}
+
+fn special(s: &str) -> bool {
+    !s.is_ascii() || crate::gen::text::needs_xml_escape(s)
+}
+
+fn label(spec: &AnnotWb, obs: &mut Obs) {
+    let kept = spec.kept();
+    let mut nt = false;
+    obs.class(format!("sheets:{}", kept.len()));
+    if kept.len() < spec.sheets.len() {
+        obs.class("sheet-removed-before-save");
+    }
+    let mut totals: BTreeMap<&str, usize> = BTreeMap::new();
+    for i in &kept {
+        let s = &spec.sheets[*i];
+        nt |= special(&s.name);
+        obs.class(format!("state:{}", ["unset", "visible", "hidden", "veryHidden"][s.state as usize % 4]));
+        let ext = s.links.iter().filter(|l| !l.internal).count();
+        for (k, n) in [
+            ("merge", s.merges.len()),
+            ("defined-name", s.names.len()),
+            ("hyperlink", s.links.len()),
+            ("hyperlink-external", ext),
+            ("comment", s.comments.len()),
+            ("data-validation", s.validations.len()),
+            ("cond-format", s.cond_formats.len()),
+        ] {
+            *totals.entry(k).or_default() += n;
+            if n >= 2 {
+                nt = true;
+                obs.class(format!("{}>=2", k));
+            }
+            if n >= 9 {
+                obs.class(format!("{}>=9", k));
+            }
+        }
+        nt |= s.links.iter().any(|l| special(&l.target));
+        nt |= s.names.iter().any(|n| special(&n.name));
+        nt |= s.comments.iter().any(|c| special(&c.author));
+        if s.links.iter().any(|l| special(&l.target)) {
+            obs.class("hyperlink:special-target");
+        }
+        if s.comments.iter().any(|c| c.author.is_empty()) {
+            obs.class("comment:empty-author");
+        }
+        let mut authors = BTreeSet::new();
+        if s.comments.iter().any(|c| !authors.insert(&c.author)) {
+            obs.class("comment:duplicate-author");
+        }
+        if s.names.iter().any(|n| n.local) {
+            obs.class("defined-name:sheet-scope");
+        }
+        for n in &s.names {
+            match &n.text {
+                NameText::Areas { areas, .. } => {
+                    if areas.len() > 1 {
+                        obs.class("defined-name:multi-area");
+                    }
+                    if areas.iter().any(|a| quote_sheet(spec.sheet_name_of(a.sheet)).starts_with('\'')) {
+                        obs.class("defined-name:quoted-sheet");
+                    }
+                }
+                NameText::Formula { .. } => obs.class("defined-name:formula"),
+            }
+        }
+        for c in &s.cond_formats {
+            for r in &c.rules {
+                obs.class(format!("cf:{}", CF_TYPES[r.kind as usize]));
+            }
+        }
+        for (k, on) in [
+            ("auto-filter", s.auto_filter.is_some()),
+            ("tab-color", s.tab_color.is_some()),
+            ("pane", s.view.as_ref().map_or(false, |v| v.pane.is_some())),
+            ("selection", s.view.as_ref().map_or(false, |v| !v.selections.is_empty())),
+            ("header-footer", s.header.is_some() || s.footer.is_some()),
+            ("sheet-protection", s.protection.is_some()),
+            ("printer-settings", s.page.object_data.is_some()),
+        ] {
+            if on {
+                obs.class(k);
+            }
+        }
+    }
+    if !spec.wb_names.is_empty() {
+        obs.class("defined-name:workbook-list");
+    }
+    nt |= spec.wb_names.iter().any(|n| special(&n.name));
+    if spec.wb_protection.is_some() {
+        obs.class("workbook-protection");
+    }
+    if spec.active_tab > 0 {
+        obs.class("active-tab>0");
+    }
+    obs.nontrivial(nt);
+}
+
+/// `rounds`: how often the same workbook is saved and reloaded.  Every save is judged on its
+/// own; more than one round is used where the library's result may differ from save to save
+/// (anything gathered through a HashMap), so that a defect that shows with probability p per
+/// save is seen with probability 1-(1-p)^rounds per case.
+fn check_rounds(case: &Case, obs: &mut Obs, rounds: usize) -> Verdict {
+    let spec = &case.wb;
+    label(spec, obs);
+    let book = match guard(|| build(spec)) {
+        Ok(b) => b,
+        Err(p) => return Verdict::Discard(format!("build panicked: {}", p.short())),
+    };
+    let exp = project(&book);
+    if let Err(e) = spec_agrees(spec, &exp) {
+        return Verdict::Discard(format!("pre-save model mismatch: {}", e));
+    }
+    let mut fails = Fails::new();
+    for _ in 0..rounds {
+        let bytes = match guard(|| save(&book, case.light)) {
+            Ok(Ok(b)) => b,
+            Ok(Err(e)) => return Verdict::fail("save/error", e),
+            Err(p) => return Verdict::fail(format!("save/panic:{}", p.site()), p.short()),
+        };
+        match guard(|| load(&bytes)) {
+            Ok(Ok(loaded)) => {
+                let got = project(&loaded);
+                fails.extend(diff(&exp, &got));
+            }
+            Ok(Err(e)) => fails.push(("reload/error".to_string(), e)),
+            Err(p) => fails.push((format!("reload/panic:{}", p.site()), p.short())),
+        }
+        file_agrees(&exp, &bytes, &mut fails);
+        if !fails.is_empty() {
+            break;
+        }
+    }
+    verdict_of(fails)
+}
+
+fn check(case: &Case, obs: &mut Obs) -> Verdict {
+    check_rounds(case, obs, 1)
+}
+
+fn check_links(case: &Case, obs: &mut Obs) -> Verdict {
+    obs.excluded("worksheet-active-cell/lost");
+    check_rounds(case, obs, 4)
+}
+
+/// Clean strata: the input features of open known findings are left out (and counted).
+fn check_clean(case: &Case, obs: &mut Obs) -> Verdict {
+    // the clean strata never call Worksheet::set_active_cell and never put a blank at the edge
+    // of a header/footer text (input features of the two open findings)
+    obs.excluded("worksheet-active-cell/lost");
+    if case.wb.sheets.iter().any(|s| s.header.is_some() || s.footer.is_some()) {
+        obs.excluded("header-footer/edge-blank-trimmed");
+    }
+    check(case, obs)
+}
+
+fn strategy_clean(t: Tier) -> BoxedStrategy<Case> {
+    (annot_wb(t, Feat::CLEAN), prop::bool::weighted(0.2)).prop_map(|(wb, light)| Case { wb, light }).boxed()
+}
+
+fn strategy_links(t: Tier) -> BoxedStrategy<Case> {
+    (links_wb(t), prop::bool::weighted(0.2)).prop_map(|(wb, light)| Case { wb, light }).boxed()
+}
+
+fn strategy_dirty(t: Tier) -> BoxedStrategy<Case> {
+    (annot_wb(t, Feat::ALL), prop::bool::weighted(0.2)).prop_map(|(wb, light)| Case { wb, light }).boxed()
+}
+
+fn subs() -> Vec<Box<dyn DynSub>> {
+    vec![
+        Box::new(Sub {
+            name: "roundtrip",
+            strategy: strategy_clean,
+            cases: (250, 6000),
+            check: check_clean,
+            max_shrink_iters: 1200,
+        }),
+        Box::new(Sub {
+            name: "hyperlinks",
+            strategy: strategy_links,
+            cases: (150, 3000),
+            check: check_links,
+            max_shrink_iters: 1200,
+        }),
+        Box::new(Sub {
+            name: "dirty",
+            strategy: strategy_dirty,
+            cases: (30, 600),
+            check,
+            max_shrink_iters: 1200,
+        }),
+    ]
 }
